@@ -579,6 +579,10 @@ func c10Decode(c *vf.Ctx, d *vf.Driver, cs c10Case, ent *c10Entry, raw map[strin
 		f.fail(vf.Violation{Kind: "property", Class: "c10-map-key-panic", What: "DecodeCustom accepts a JSON object for a map with a non-string key kind (and panics as soon as it has a member)", Case: cs, Observed: impl, Required: model})
 		return vf.Wire{}, impl
 	}
+	if ent.Shadow && impl != model && strings.HasPrefix(impl, "err:") && mo.Tag == "err" {
+		c.Count("decode/shadow-multi-fault")
+		return vf.Wire{}, impl
+	}
 	if impl != model {
 		cls := "c10-decode-outcome"
 		if impl == "err:overflow" && c10HasF32Edge(raw) {
@@ -619,7 +623,11 @@ func execC10Custom(c *vf.Ctx, d *vf.Driver, cs c10Case) {
 	mo := vf.AsOutcome(res)
 	model := c10ModelOutcome(mo)
 	c.Case(fmt.Sprintf("custom/%s/%d/%v", cs.Type, cs.Seed, cs.Well), true)
-	c.Count("encode/" + ent.Name + "/" + impl)
+	if strings.HasPrefix(ent.Name, "dyn:") {
+		c.Count("encode/dyn/" + impl)
+	} else {
+		c.Count("encode/" + ent.Name + "/" + impl)
+	}
 	c.TraceValidated()
 	if panicked && strings.Contains(what, "interface conversion") && (ent.Name == "named-bytes" || ent.Name == "named-elem") {
 		f.fail(vf.Violation{Kind: "property", Class: "c10-named-bytes-encode-panic", What: "EncodeCustom panics for a named byte-slice type (in.Interface().([]byte))", Case: cs, Observed: what, Required: model})
@@ -777,7 +785,11 @@ func execC10Mutate(c *vf.Ctx, d *vf.Driver, cs c10Case) {
 	}
 	raw, _ = c10Replace(base, path, repl).(map[string]any)
 	c.Case(fmt.Sprintf("mutate/%s/%d/%v/%s", cs.Type, cs.Seed, path, cs.Repl), true)
-	c.Count("mutate/" + ent.Name)
+	if strings.HasPrefix(ent.Name, "dyn:") {
+		c.Count("mutate/dyn")
+	} else {
+		c.Count("mutate/" + ent.Name)
+	}
 	c10Decode(c, d, cs, ent, raw)
 }
 
@@ -1025,11 +1037,11 @@ func runC10(c *vf.Ctx) {
 			execC10(c, d, cs)
 		}
 	})
-	nCustom, nMutate, nClaims, nRandNum := 24000, 24000, 12000, 6000
+	nCustom, nMutate, nClaims, nRandNum, nDyn := 30000, 24000, 12000, 6000, 2000
 	if !c.Quick() {
-		nCustom, nMutate, nClaims, nRandNum = 400000, 400000, 200000, 100000
+		nCustom, nMutate, nClaims, nRandNum, nDyn = 450000, 400000, 200000, 100000, 40000
 	} else if p04Search() {
-		nCustom, nMutate, nClaims, nRandNum = 80000, 80000, 40000, 20000
+		nCustom, nMutate, nClaims, nRandNum, nDyn = 90000, 80000, 40000, 20000, 8000
 	}
 	texts := c10NumberTexts()
 	var numeric []string
@@ -1055,7 +1067,16 @@ func runC10(c *vf.Ctx) {
 		}
 		for i := 0; i < nCustom/workers && !f.stop(); i++ {
 			e := c10Family[(i*workers+w)%len(c10Family)]
-			cs := c10Case{Stream: "custom", Type: e.Name, Seed: r.U64(), Well: r.Intn(4) != 0}
+			name := e.Name
+			if i%3 == 2 { // a generated embedding tree (depth 1–5) instead of a family type
+				name = fmt.Sprintf("dyn:%d", r.U64()%uint64(nDyn))
+				if c10EntryByName(name) == nil {
+					name = e.Name
+				} else {
+					c.Count("dyn/custom")
+				}
+			}
+			cs := c10Case{Stream: "custom", Type: name, Seed: r.U64(), Well: r.Intn(4) != 0}
 			execC10(c, d, cs)
 			if i%3000 == 0 {
 				c.Sample(cs)
@@ -1063,7 +1084,13 @@ func runC10(c *vf.Ctx) {
 		}
 		for i := 0; i < nMutate/workers && !f.stop(); i++ {
 			e := c10Family[(i*workers+w)%len(c10Family)]
-			cs := c10Case{Stream: "mutate", Type: e.Name, Seed: r.U64(), Well: true, Repl: vf.Pick(r, c10Repl)}
+			name := e.Name
+			if i%4 == 3 {
+				if dn := fmt.Sprintf("dyn:%d", r.U64()%uint64(nDyn)); c10EntryByName(dn) != nil {
+					name = dn
+				}
+			}
+			cs := c10Case{Stream: "mutate", Type: name, Seed: r.U64(), Well: true, Repl: vf.Pick(r, c10Repl)}
 			// choose a path in the encoded JSON of that value
 			_, pv := c10NewValue(&cs)
 			claims := &jwt.Claims{}
@@ -1083,6 +1110,7 @@ func runC10(c *vf.Ctx) {
 		}
 	})
 	c.Set("family_types", len(c10Family))
+	c.Set("generated_struct_types", nDyn)
 	c.Set("number_texts", len(texts))
 	c.Set("numeric_kinds", len(numeric))
 }
